@@ -19,11 +19,12 @@ class Ctx:
         return path in self.F.bodies
 
     def body(self, path):
-        if path not in self._bodies:
+        key = (path, mir.Walker.AUTO_INLINE)
+        if key not in self._bodies:
             if path not in self.F.bodies:
                 raise Unrecognised("missing-anchor:" + path)
-            self._bodies[path] = mir.Body(self.F.bodies[path], self.F)
-        return self._bodies[path]
+            self._bodies[key] = mir.Body(self.F.bodies[path], self.F)
+        return self._bodies[key]
 
     def bodies_with_prefix(self, prefix):
         return [self.body(p) for p in sorted(self.F.bodies) if p.startswith(prefix)]
@@ -47,10 +48,14 @@ class Ctx:
     # ---- call graph over resolved callees (local functions only; closures are edges from the
     # function that constructs them)
     def callgraph(self):
-        if self._cg is not None:
-            return self._cg
+        mode = mir.Walker.AUTO_INLINE
+        if self._cg is not None and mode in self._cg:
+            return self._cg[mode]
         cg = collections.defaultdict(set)
+        away = self.F.spliced_away
         for p in self.F.bodies:
+            if p.split("::{closure")[0] in away:
+                continue      # a new helper that lives on inside its callers: its calls are its callers' calls
             b = self.body(p)
             for i in b.live_blocks():
                 blk = b.blocks[i]
@@ -73,7 +78,9 @@ class Ctx:
                         for o in _rv_operands(rv):
                             if o["k"] == "const" and "fn" in o["c"]:
                                 cg[p].add(o["c"]["fn"])
-        self._cg = cg
+        if self._cg is None:
+            self._cg = {}
+        self._cg[mode] = cg
         return cg
 
     def cone(self, roots, local_only=True):
